@@ -180,7 +180,7 @@ def spec_step(anc, t, o, r):
         return ([x for x in att if x[0] not in pend], [], sprocs)
     if k == 'clear' and r[0] == 'unit':
         return ([], [], [])
-    if k == 'enable' and r[0] == 'unit':
+    if k in ('enable', 'probe') and r[0] == 'unit':
         return t
     if k == 'addproc' and r[0] == 'unit':
         u, p = o[1], o[2]
@@ -265,7 +265,7 @@ def _shape_ok(o, n):
             return isint(o[1]) and cl(o[2])
         if k == 'delete':
             return isint(o[1]) and isinstance(o[2], bool)
-        if k in ('process', 'clear'):
+        if k in ('process', 'clear', 'probe'):
             return True
         if k == 'enable':
             return isinstance(o[1], bool)
@@ -286,14 +286,56 @@ def run(case):
     if python_accepts(H) is not None or len(kinds) != n or len(pkinds) != n:
         return {'bad': 'hierarchy not realisable in Python'}
 
+    # Lifecycle and probe callbacks re-enter the world with read-only queries
+    # (seeded choice; results discarded: queries do not change the model
+    # state).  A query that raises inside a callback is recorded as QErr; the
+    # types asked through get() are asked again right after the operation.
+    cb = {'rng': random.Random(int(case.get('qseed', 0)) * 131 + 7), 'err': False,
+          'types': [], 'world': None, 'ready': False, 'calls': 0}
+
+    def reenter(world=None):
+        world = world if world is not None else cb['world']
+        if world is None or not cb['ready']:
+            return
+        cb['calls'] += 1
+        r = cb['rng']
+        try:
+            for _ in range(r.randint(1, 3)):
+                x = r.random()
+                T = r.randrange(n)
+                e = real(r.choice(list(case['pool']) + NEVER))
+                if x < 0.55:
+                    cb['types'].append(T)
+                    world.get(cls[T])
+                elif x < 0.63:
+                    world.get_component(e, cls[T], cb)
+                elif x < 0.71:
+                    world.has_component(e, cls[T])
+                elif x < 0.79:
+                    world.get_components(e)
+                elif x < 0.86:
+                    world.entities
+                elif x < 0.92:
+                    world.entity_exists(e)
+                elif x < 0.96:
+                    world.processors
+                else:
+                    world.get_processor(pcls[T])
+        except Exception:
+            cb['err'] = True
+
+    def on_event(self, *a):
+        # components are told (entity, world); processors nothing
+        reenter(a[1] if len(a) >= 2 else getattr(self, 'world', None))
+
     def namespace(kind):
         ns = {}
         if kind in ('both', 'addonly'):
-            ns['on_add'] = lambda self, *a: None
+            ns['on_add'] = on_event
         if kind in ('both', 'remonly'):
-            ns['on_remove'] = lambda self, *a: None
+            ns['on_remove'] = on_event
         if kind == 'other':
-            ns['probe'] = lambda self, *a: None
+            ns['probe'] = lambda self, *a: reenter()
         return ns
 
     events = {'both': ('on_add', 'on_remove'), 'addonly': ('on_add',),
@@ -389,6 +431,8 @@ def run(case):
         return None if x is None else proc_id.get(id(x), UNKNOWN_OBJ)
 
     w = desper.World()
+    cb['world'] = w
+    cb['ready'] = True
 
     def execute(o):
         k = o[0]
@@ -413,6 +457,8 @@ def run(case):
                 w.clear()
             elif k == 'enable':
                 w.dispatch_enabled = o[1]
+            elif k == 'probe':
+                w.dispatch('probe')
             elif k == 'addproc':
                 w.add_processor(pobj(o[1], o[2]))
             elif k == 'rmproc':
@@ -472,15 +518,22 @@ def run(case):
     for i, o in enumerate(ops):
         skip = (not _shape_ok(o, n) or not consistent(o)
                 or (spec is not None and not wf_op(spec, o)))
+        cb['err'], cb['types'] = False, []
         res = ['unit'] if skip else execute(o)
+        cb_err, cb_types = cb['err'], sorted(set(cb['types']))
         if spec is not None:
             spec = spec_step(anc, spec, ['nop'] if skip else o, res)
         if every or i == len(ops) - 1:
             qs = full
         else:
             qs = random.Random(qseed * 1000 + i).sample(full, min(nq, len(full)))
-        obs.append({'res': res, 'skip': skip, 'q': [ask(q) for q in qs]})
-    return {'obs': obs}
+        answers = [ask(q) for q in qs]
+        if not (every or i == len(ops) - 1):
+            answers += [ask(['get', T]) for T in cb_types[:4]]
+        if cb_err:
+            answers.append(['err'])
+        obs.append({'res': res, 'skip': skip, 'q': answers})
+    return {'obs': obs, 'callbacks': cb['calls']}
 
 
 # ------------------------------------------------------------------ encoding
@@ -738,6 +791,8 @@ class Pred:
             return ['clear']
         if kind == 'enable':
             return ['enable', rng.random() < 0.5]
+        if kind == 'probe':
+            return ['probe']
         if kind == 'addproc':
             if self.sprocs and rng.random() < 0.3:
                 # a relative of an attached processor
@@ -961,7 +1016,7 @@ def mutate(case, rng):
     def rand_op():
         k = rng.choice(['create', 'create', 'add', 'add', 'add', 'remove', 'remove',
                         'delete', 'delete', 'process', 'clear', 'enable', 'addproc',
-                        'rmproc'])
+                        'rmproc', 'probe'])
         e = rng.choice(ents)
         if k == 'create':
             cs, seen = [], set()
@@ -980,6 +1035,8 @@ def mutate(case, rng):
             return ['delete', e, rng.random() < 0.5]
         if k == 'enable':
             return ['enable', rng.random() < 0.5]
+        if k == 'probe':
+            return ['probe']
         if k == 'addproc':
             if ptype and rng.random() < 0.4:
                 p = rng.choice(sorted(ptype))
@@ -1064,8 +1121,10 @@ def stats(cases, traces):
     hist, results, kinds, shapes = {}, {}, {}, {}
     skipped = multi = diamond = anc_removed = replacements = future = skips = 0
     same_again = total = full_cases = nqueries = 0
+    callbacks = 0
     for case, tr in zip(cases, traces):
         H = case['H']
+        callbacks += tr.get('callbacks', 0) if isinstance(tr, dict) else 0
         shapes[len(H)] = shapes.get(len(H), 0) + 1
         multi += any(len(bs) >= 2 for bs in H)
         diamond += has_diamond(H)
@@ -1121,7 +1180,7 @@ def stats(cases, traces):
                 att, pend = {}, set()
                 nxt = 1
             pend &= {k[0] for k in att}
-    return dict(cases=len(cases), entries=total, queries=nqueries, operations=hist,
+    return dict(cases=len(cases), reentrant_callbacks=callbacks, entries=total, queries=nqueries, operations=hist,
                 skipped_not_wellformed=skipped, results=results,
                 classes_per_case=shapes, cases_with_multibase_class=multi,
                 cases_with_diamond=diamond, handler_kinds=kinds,
